@@ -68,6 +68,40 @@ async def check_tree(ctx, case):
                     detail = f"flag run: {base[0]} {base[1] if base[0] == 'exc' else ''}; rewritten run: {other[0]} {other[1] if other[0] == 'exc' else ''}"
                 ctx.violation("soll-flag-vs-rewriting", f"soll_is_required={soll} differs from the AHB with {name} under {asg}: {detail}", case=dict(case, soll=soll))
                 return
+    # a failed run must leave nothing behind: validate(soll=False) refusing with NotImplementedError (caught by the caller), then - in the same
+    # task - the segment-level entry point called without a flag, i.e. with the documented default soll_is_required=True
+    groups = [n for n in T.walk(spec) if n["k"] == "G" and any(p[0] == "SOLL" for h in T.expressions([n]) for p in h["x"]["parts"])]
+    if groups and "K" in asg.values():
+        group = rng.choice(groups)
+        rewritten_group = T.map_expressions([group], lambda _h, x: T.rewrite_indicator(x, "SOLL", "MUSS"))[0]
+        world = E.World("c14", rc=asg, fc={k: (int(k) % 2 == 0) for k in POOLS.fc})
+
+        async def failed_then_default():
+            from ahbicht.validation.validation import validate_deep_anwendungshandbuch
+
+            E.set_world(world)
+            first = "ok"
+            try:
+                await validate_deep_anwendungshandbuch(TB.build(spec), soll_is_required=False)
+            except NotImplementedError:
+                first = "refused"
+            second = await validate_segment_level(TB.build_group(group))  # no flag given
+            return first, second
+
+        async def reference():
+            E.set_world(E.World("c14", rc=asg, fc={k: (int(k) % 2 == 0) for k in POOLS.fc}))
+            return await validate_segment_level(TB.build_group(rewritten_group), True)
+
+        a = await sched.run_under(None, failed_then_default)
+        b = await sched.run_under(None, reference)
+        ctx.evaluation()
+        if a[0] == "ok" and a[1][0] == "refused":
+            ctx.count("default_flag_after_failed_run")
+        sa = ("ok", TB.summarise(a[1][1])) if a[0] == "ok" else ("exc", type(a[1]).__name__)
+        sb = outcome_summary(b)
+        if sa != sb:
+            ctx.violation("soll-flag-vs-rewriting", f"validate_segment_level({group['d']}) without a flag (default: SOLL as MUSS), called after a validation with soll_is_required=False that {'was refused' if a[0] == 'ok' and a[1][0] == 'refused' else 'went through'} in the same task, differs from the group with SOLL rewritten to MUSS under {asg}: {sa} vs {sb}"[:1000], case=case)
+            return
     # the segment entry points take the flag as well
     segs = [n for n in T.walk(spec) if n["k"] == "S" and (any(p[0] == "SOLL" for p in n["x"]["parts"]) or any(d["k"] == "F" and any(p[0] == "SOLL" for p in d["x"]["parts"]) for d in n["des"]))]
     if segs:
